@@ -82,6 +82,32 @@ def _ctor_default_class(prog, func, call):
     return None
 
 
+def _own_class_ctor(prog, func, call):
+    """`self.__class__(...)` / `type(self)(...)` in a method of C -> C.__init__ when every subclass that inherits the method
+    also inherits that __init__ (so the positional layout is the same whatever the dynamic class);
+    `self.Nested(...)` where Nested is a class defined inside C's hierarchy -> Nested.__init__"""
+    if func.cls is None:
+        return None
+    f = call.func
+    if norm.canon(f) in ("self.__class__", "type(self)"):
+        init = prog.lookup(func.cls, "__init__")
+        if init is None:
+            return None
+        for sub in prog.subclasses(func.cls, strict=True):
+            if prog.lookup(sub, func.name) is func and prog.lookup(sub, "__init__") is not init:
+                return None
+        return init
+    if isinstance(f, ast.Attribute) and isinstance(f.value, ast.Name) and f.value.id == "self" and f.attr[:1].isupper():
+        for k in prog.mro(func.cls):
+            if not isinstance(k, str) and f.attr in k.nested:
+                # a subclass may rebind the nested class; then the layout is not known here
+                for sub in prog.subclasses(func.cls, strict=True):
+                    if f.attr in sub.nested or f.attr in sub.attrs:
+                        return None
+                return prog.lookup(k.nested[f.attr], "__init__")
+    return None
+
+
 def resolved_target(prog, func, call):
     """-> (FuncInfo, skip_self) for a call with exactly one project target, else None"""
     calls = common.calls_of(prog)
@@ -94,6 +120,8 @@ def resolved_target(prog, func, call):
         t = r.targets[0]
     if t is None:
         t = _ctor_default_class(prog, func, call)
+    if t is None:
+        t = _own_class_ctor(prog, func, call)
     if t is None:
         return None
     c = call
@@ -138,6 +166,15 @@ def swapped_arguments(prog, funcs):
                     if (f.short, t.short) in SWAP_OK:
                         continue
                     out.append((f, c, t, p, a, pn[_nm(a)]))
+            # crossed pair: `Cls(new_b, new_a)` for parameters (a, b) -- two arguments that carry each other's parameter name
+            # as a suffix after a common prefix
+            named = [(p, _argname(e)) for p, e in m.items()]
+            named = [(p, a) for p, a in named if a and "_" in a]
+            for p1, a1 in named:
+                for p2, a2 in named:
+                    if p1 < p2 and a1.rsplit("_", 1)[0] == a2.rsplit("_", 1)[0] and _nm(a1.rsplit("_", 1)[1]) == _nm(p2) \
+                            and _nm(a2.rsplit("_", 1)[1]) == _nm(p1) and _nm(p1) != _nm(p2) and (f.short, t.short) not in SWAP_OK:
+                        out.append((f, c, t, p1, a1, p2))
     return n, out
 
 
@@ -943,3 +980,202 @@ for _p in _properties():
          clause="An operand produced by read()/getvalue()/pack_*()/encode()/b() or the name emptybytes is bytes; `+` (or `+=` on a name "
                 "bound only to such values) with a str literal raises TypeError on Python 3 -- the code path was written for Python 2. "
                 "Expected count on the tree: zero; the detector is checked against a built-in example on every run.")(_make_g9(_p["id"]))
+
+
+# ---------------------------------------------------------------------------------------------------------------------------
+#  G10  get-or-create tests the container it fills
+#       (`if name not in self.files: self.locks[name] = RamLock()` makes a new lock on every call)
+
+def _subscript_store_targets(body, key):
+    out = []
+    for st in body:
+        for x in ast.walk(st):
+            if isinstance(x, (ast.FunctionDef, ast.Lambda)):
+                continue
+            tg = []
+            if isinstance(x, ast.Assign):
+                tg = x.targets
+            elif isinstance(x, ast.AugAssign):
+                tg = [x.target]
+            for t in tg:
+                if isinstance(t, ast.Subscript) and norm.canon(t.slice) == key:
+                    out.append(t)
+    return out
+
+
+def get_or_create_mismatches(funcs):
+    n = 0
+    out = []
+    for f in funcs:
+        for x in ast.walk(f.node):
+            if not isinstance(x, ast.If) or x.orelse:
+                continue
+            t = x.test
+            if not (isinstance(t, ast.Compare) and len(t.ops) == 1 and isinstance(t.ops[0], ast.NotIn)):
+                continue
+            key = norm.canon(t.left)
+            cont = t.comparators[0]
+            if not isinstance(cont, (ast.Attribute, ast.Name)):
+                continue
+            stores = _subscript_store_targets(x.body, key)
+            if not stores:
+                continue
+            filled = set(norm.canon(s.value) for s in stores)
+            tested = norm.canon(cont)
+            n += 1
+            if tested in filled:
+                continue
+            # the tested container is filled elsewhere in the body under the same key (B.add(key), B.append(key)) -> a pair of
+            # containers kept in step, not a get-or-create
+            in_step = any(isinstance(c, ast.Call) and isinstance(c.func, ast.Attribute) and norm.canon(c.func.value) == tested
+                          and c.func.attr in ("add", "append", "setdefault", "update", "insert")
+                          for st in x.body for c in ast.walk(st))
+            if in_step:
+                continue
+            # only the plain idiom: single store, and what follows reads the filled container under the key
+            if len(stores) == 1 and all(isinstance(s.value, (ast.Attribute, ast.Name)) for s in stores):
+                out.append((f, x, tested, sorted(filled)[0], key))
+    return n, out
+
+
+def _make_g10(pid):
+    def g10(ctx):
+        prog = ctx.prog
+        probe = ast.parse("def f(self, name):\n    if name not in self.files:\n        self.locks[name] = object()\n"
+                          "    if name not in self.locks:\n        self.locks[name] = object()\n    return self.locks[name]\n").body[0]
+
+        class _F(object):
+            node = probe
+            name = "f"
+        if len(get_or_create_mismatches([_F])[1]) != 1:
+            raise AnalysisError("G10 detector does not match its own positive example")
+        funcs = anchor_funcs(prog, pid)
+        n, bad = get_or_create_mismatches(funcs)
+        ctx.ob("%s anchor files" % pid, True, "%d `if k not in C: D[k] = ...` get-or-create sites examined for C is D" % n)
+        for f, x, tested, filled, key in bad:
+            ctx.ob(f, False, "the get-or-create for `%s` tests the container it fills" % key,
+                   detail="`if %s not in %s:` guards `%s[%s] = ...`: the test never becomes false by the assignment, so a new "
+                          "object replaces the stored one on every call" % (key, tested, filled, key), loc=ctx.nodeloc(f, x))
+    return g10
+
+
+for _p in _properties():
+    rule(_p["id"], "G10", "K6", "a get-or-create tests the container it fills",
+         clause="`if k not in C: D[k] = new` with C and D different containers, where nothing in the branch also records k in C, "
+                "creates a new object on every call (RamStorage.lock would hand every writer its own lock). Expected count on the "
+                "tree: zero; the detector is checked against a built-in example on every run.")(_make_g10(_p["id"]))
+
+
+# ---------------------------------------------------------------------------------------------------------------------------
+#  G11  str.strip/lstrip/rstrip take a character SET: a multi-character literal with letters or digits is an affix mistaken for one
+#       (`k.rstrip("_B")` also eats the B of "abstract_B"[:-2] == "abstract" -> "abstract_B".rstrip("_B") == "abstract" but
+#        "sizeKB_B".rstrip("_B") == "sizeK")
+
+def affix_strips(funcs):
+    n = 0
+    out = []
+    for f in funcs:
+        for x in ast.walk(f.node):
+            if isinstance(x, ast.Call) and isinstance(x.func, ast.Attribute) and x.func.attr in ("strip", "lstrip", "rstrip") \
+                    and len(x.args) == 1 and isinstance(x.args[0], ast.Constant) and isinstance(x.args[0].value, (str, bytes)):
+                n += 1
+                v = x.args[0].value
+                if isinstance(v, bytes):
+                    v = v.decode("latin-1")
+                if len(v) >= 2 and any(ch.isalnum() for ch in v) and any(not ch.isalnum() and not ch.isspace() for ch in v):
+                    out.append((f, x, v))
+    return n, out
+
+
+def _make_g11(pid):
+    def g11(ctx):
+        prog = ctx.prog
+        probe = ast.parse("def f(k):\n    a = k.rstrip('_B')\n    b = k.strip(' \\t')\n    c = k.rstrip('0123456789')\n    return a, b, c\n").body[0]
+
+        class _F(object):
+            node = probe
+            name = "f"
+        if len(affix_strips([_F])[1]) != 1:
+            raise AnalysisError("G11 detector does not match its own positive example")
+        funcs = anchor_funcs(prog, pid)
+        n, bad = affix_strips(funcs)
+        ctx.ob("%s anchor files" % pid, True, "%d strip/lstrip/rstrip calls with a literal argument examined" % n)
+        for f, x, v in bad:
+            ctx.ob(f, False, "strip() is given a character set, not an affix",
+                   detail="`%s`: %r mixes a separator with letters/digits -- it reads as a suffix/prefix, but strip removes any run "
+                          "of these characters (a name ending in one of them loses it too)" % (norm.canon(x), v),
+                   loc=ctx.nodeloc(f, x))
+    return g11
+
+
+for _p in _properties():
+    rule(_p["id"], "G11", "K6", "strip/lstrip/rstrip are not used to cut a literal affix",
+         clause="str.rstrip(chars) removes any trailing run of the characters, not the string: a literal that mixes a separator with "
+                "letters or digits ('_B', '.py', '-1') is an affix written as a set. Expected count on the tree: zero; the "
+                "detector is checked against a built-in example on every run.")(_make_g11(_p["id"]))
+
+
+# ---------------------------------------------------------------------------------------------------------------------------
+#  G12  a pure delegation returns what it delegates
+#       (`def parse_range(self, ...): self.subfield.parse_range(...)` answers None whatever the wrapped field says)
+
+def _body_without_doc(node):
+    b = list(node.body)
+    if b and isinstance(b[0], ast.Expr) and isinstance(b[0].value, ast.Constant) and isinstance(b[0].value.value, str):
+        b = b[1:]
+    return b
+
+
+def dropped_delegation_results(prog, funcs):
+    n = 0
+    out = []
+    byname = {}
+    for g in prog.functions.values():
+        byname.setdefault(g.name, []).append(g)
+
+    def returns_value(g):
+        for r in common.returns_of(g):
+            v = r.value
+            if v is not None and not (isinstance(v, ast.Constant) and v.value is None):
+                return True
+        return False
+    for f in funcs:
+        if f.cls is None or f.name.startswith("__"):
+            continue
+        b = _body_without_doc(f.node)
+        if len(b) != 1 or not isinstance(b[0], (ast.Expr, ast.Return)):
+            continue
+        c = b[0].value
+        if not (isinstance(c, ast.Call) and isinstance(c.func, ast.Attribute) and c.func.attr == f.name):
+            continue
+        recv = norm.canon(c.func.value)
+        if not recv.startswith("self.") or recv == "self":
+            continue
+        n += 1
+        if isinstance(b[0], ast.Return):
+            continue
+        impls = [g for g in byname.get(f.name, []) if g is not f and g.cls is not None and not common.is_abstract_body(g)]
+        valued = [g for g in impls if returns_value(g)]
+        if valued and len(valued) * 2 >= len(impls):
+            out.append((f, c, recv, valued))
+    return n, out
+
+
+def _make_g12(pid):
+    def g12(ctx):
+        prog = ctx.prog
+        funcs = anchor_funcs(prog, pid)
+        n, bad = dropped_delegation_results(prog, funcs)
+        ctx.ob("%s anchor files" % pid, True, "%d one-line delegations `self.x.m(...)` inside a method m examined" % n)
+        for f, c, recv, valued in bad:
+            ctx.ob(f, False, "the delegation to %s.%s() returns the delegate's answer" % (recv, f.name),
+                   detail="`%s` is the whole body and its value is dropped, but %s return a value: the wrapper always answers None"
+                          % (norm.canon(c)[:90], ", ".join(sorted(g.short for g in valued))[:160]), loc=ctx.nodeloc(f, c))
+    return g12
+
+
+for _p in _properties():
+    rule(_p["id"], "G12", "K6", "a pure delegation returns what it delegates",
+         clause="A method m whose whole body is the call self.<attr>.m(...) forwards a request to a wrapped object. When the "
+                "implementations of m elsewhere in the package return a value, the wrapper must return the call's value too; an "
+                "expression statement makes it answer None whatever the wrapped object says (FieldWrapper.parse_range).")(_make_g12(_p["id"]))
